@@ -71,8 +71,53 @@ def _wait_seconds(n) -> float | None:
     return float(m.group(1)) * {"s": 1, "min": 60, "h": 3600}[m.group(2)]
 
 
+def source_scopes(pcode: str, nodes) -> tuple[dict, dict]:
+    """Enclosing scope and preceding line of the same scope for every instruction line, derived from the
+    INDENTATION OF THE SOURCE TEXT (nearest preceding instruction line one level shallower / at the same
+    level), not from the parser's tree.  Lines whose indentation is not a clean nesting are left out (the
+    tree is used for them, and for blank/comment lines)."""
+    lines = pcode.split("\n")
+    root = next(n for n in nodes if n.parent is None)
+    by_line = {n.position.line: n for n in nodes if n.parent is not None}
+    indent: dict[int, int] = {}
+    for ln, text in enumerate(lines):
+        st = text.strip()
+        if st and not st.startswith("#"):
+            indent[ln] = len(text) - len(text.lstrip(" "))
+    tpar: dict = {}
+    tprev: dict = {}
+    for ln, ind in indent.items():
+        n = by_line.get(ln)
+        if n is None or ind % 4 != 0:
+            continue
+        par_line = prev_line = None
+        for m in range(ln - 1, -1, -1):
+            if m not in indent:
+                continue
+            if indent[m] < ind:
+                par_line = m
+                break
+            if indent[m] == ind and prev_line is None:
+                prev_line = m
+        if ind == 0:
+            parent = root
+        elif par_line is None or indent[par_line] != ind - 4 or par_line not in by_line \
+                or not hasattr(by_line[par_line], "children"):
+            continue
+        else:
+            parent = by_line[par_line]
+        tpar[n.id] = parent
+        tprev[n.id] = by_line.get(prev_line) if prev_line is not None else None
+    return tpar, tprev
+
+
 def oracle_case(case: dict) -> list[Failure]:  # noqa: C901
-    """The property as worded, on the real engine.  One failure per kind at most."""
+    """The property as worded, on the real engine.  One failure per kind at most.  The enclosing scope and
+    the preceding line of an instruction are those of the source text (indentation)."""
+    if case.get("kind") == "expand":
+        return oracle_expand(case)
+    if case.get("kind") == "alarm-repeat":
+        return oracle_alarm_repeat(case)
     from harness.engine_run import EngineRun
     pcode, ticks, plan = case["pcode"], case["ticks"], case.get("plan", [])
     run = EngineRun(pcode)
@@ -82,11 +127,29 @@ def oracle_case(case: dict) -> list[Failure]:  # noqa: C901
         nodes = prog.get_all_nodes()
         cls = {n.id: type(n).__name__ for n in nodes}
 
+        tpar, tprev = source_scopes(pcode, nodes)
+
+        def parent_of(n):
+            return tpar.get(n.id, n.parent)
+
+        def prev_of(n):
+            """the line before `n` in its scope: the tree's previous sibling where tree and text agree
+            (this includes blank/comment lines), else the previous instruction line of the text"""
+            par = parent_of(n)
+            if par is None:
+                return None
+            if par is n.parent:
+                i = index[n.id]
+                return par.children[i - 1] if i > 0 else None
+            return tprev.get(n.id)
+
         def anc(n):
-            a = n.parent
-            while a is not None:
+            a = parent_of(n)
+            k = 0
+            while a is not None and k < 64:
                 yield a
-                a = a.parent
+                a = parent_of(a)
+                k += 1
         # an interrupt (Watch/Alarm) below an Alarm: the re-armed Alarm and the interrupt's own generator race
         nest = any(cls[n.id] in ("WatchNode", "AlarmNode") and any(cls[a.id] == "AlarmNode" for a in anc(n)) for n in nodes)
         suffix = ":alarm-nest" if nest else ""
@@ -128,11 +191,10 @@ def oracle_case(case: dict) -> list[Failure]:  # noqa: C901
                     starts[n.id] += 1
                     if not rep[n.id] and not ws[n.id] and starts[n.id] > 1:
                         add("instruction-started-twice", t, n, "started for the second time")
-                    par = n.parent
+                    par = parent_of(n)
                     if par is not None:
-                        i = index[n.id]
-                        if i > 0:
-                            pr = par.children[i - 1]
+                        pr = prev_of(n)
+                        if pr is not None:
                             if not done(pr):
                                 w = _wait_seconds(pr)
                                 if w is not None and w < SHORT_WAIT:
@@ -167,10 +229,10 @@ def oracle_case(case: dict) -> list[Failure]:  # noqa: C901
             if not rep[n.id] and hist.count(name) > 1:
                 add("mark-set-twice", ticks, n, f"Mark history {hist}")
         for par in nodes:
-            kids = [c for c in getattr(par, "children", []) or [] if cls[c.id] == "MarkNode" and c.arguments in marks]
+            kids = [c for c in marks.values() if parent_of(c) is par]
             if not kids:
                 continue
-            pos = {c.arguments: index[c.id] for c in kids}
+            pos = {c.arguments: c.position.line for c in kids}
             seq = [pos[h] for h in hist if h in pos]
             runs, last = 0, None
             for x in seq:
@@ -201,17 +263,126 @@ def oracle_case(case: dict) -> list[Failure]:  # noqa: C901
         run.close()
 
 
+def _mark_hist(snap) -> list[str]:
+    v = snap["tags"].get("Mark") if snap else None
+    return [x for x in str(v).split("; ") if x] if v else []
+
+
+def _expand_cost(items) -> int:
+    """generous tick estimate for the inline expansion (0.125 s ticks)"""
+    table: dict = {}
+    cost = [0]
+
+    def run(body, depth=0):
+        if depth > 10 or cost[0] > 100000:
+            return
+        for it in body:
+            cost[0] += 4
+            if it[0] == "macro":
+                table[it[1]] = it[2]
+            elif it[0] == "wait":
+                cost[0] += int(float(it[1][:-1]) * 8) + 3
+            elif it[0] == "cmd":
+                cost[0] += 4
+            elif it[0] == "block":
+                cost[0] += 6
+                run(it[2], depth + 1)
+            elif it[0] == "call" and it[1] in table:
+                run(table[it[1]], depth + 1)
+    run(items)
+    return cost[0]
+
+
+def oracle_expand(case: dict) -> list[Failure]:
+    """Bodies of called macros may run repeatedly, but each invocation starts its lines once and in order:
+    for straight-line macro bodies with Blocks (closed by End block) the Mark trace is the inline expansion."""
+    from harness.engine_run import EngineRun
+    from harness.macro_gen import expand, pcode_of
+    items = [_tup(x) for x in case["items"]]
+    exp = expand(items)
+    run = EngineRun(pcode_of(items))
+    try:
+        snap, extra = None, 0
+        for _ in range(2 * _expand_cost(items) + 80):
+            snap = run.tick()
+            if snap["tags"].get("Method Status") == "Error":
+                break
+            if len(_mark_hist(snap)) >= len(exp["marks"]) and exp["stop"] is None:
+                extra += 1
+                if extra > 40:
+                    break
+        got = _mark_hist(snap)
+        if got != exp["marks"]:
+            first = next((i for i, (a, b) in enumerate(zip(got, exp["marks"])) if a != b), min(len(got), len(exp["marks"])))
+            return [Failure("macro-invocation-skips-or-reorders-lines", case,
+                            f"Mark trace {got} differs from the inline expansion {exp['marks']} at position {first} "
+                            f"(each call must start the lines of the body once, in order)")]
+        return []
+    finally:
+        run.close()
+
+
+def oracle_alarm_repeat(case: dict) -> list[Failure]:
+    """An Alarm whose condition stays true runs its body again and again; every invocation starts the lines
+    of the body (also those inside its Blocks) once, in order."""
+    from harness.engine_run import EngineRun
+    from harness.macro_gen import body_marks, pcode_of
+    items = [_tup(x) for x in case["items"]]
+    pre = [it[1] for it in items if it[0] == "mark"]
+    body = body_marks(next(it[2] for it in items if it[0] == "alarm"))
+    run = EngineRun(pcode_of(items))
+    try:
+        snap = None
+        for _ in range(case.get("ticks", 220)):
+            snap = run.tick()
+            if snap["tags"].get("Method Status") == "Error":
+                break
+        got = [m for m in _mark_hist(snap) if m not in pre]
+        want = [body[i % len(body)] for i in range(len(got))]
+        if got != want:
+            first = next(i for i, (a, b) in enumerate(zip(got, want)) if a != b)
+            return [Failure("alarm-invocation-skips-or-reorders-lines", case,
+                            f"marks of the Alarm body {got}: invocation {first // len(body) + 1} does not start the "
+                            f"lines {body} once in order (position {first})")]
+        return []
+    finally:
+        run.close()
+
+
+def _tup(x):
+    if x and x[0] in ("macro", "watch", "alarm", "block"):
+        return (x[0], x[1], [_tup(y) for y in x[2]])
+    return tuple(x)
+
+
 def gen_oracle_cases(ctx: Check, n: int) -> list[dict]:
     from harness.gen_pcode import gen_program
-    from harness.macro_gen import gen_acyclic, pcode_of
+    from harness.macro_gen import gen_acyclic, gen_alarm_repeat, gen_empty_openers, pcode_of
     rng = ctx.rng
     out = []
     for _ in range(n):
         x = rng.random()
-        if x < 0.2:
+        if x < 0.08:
+            # macros with Blocks, every macro that is defined last is called twice more
+            items = gen_acyclic(rng, blocks=True)
+            last = [it[1] for it in items if it[0] == "macro"][-1]
+            items = [it for it in items if it[0] != "blank"] + [("call", last), ("call", last)]
+            if _expand_cost(items) > 1200:
+                continue
+            ctx.count("oracle:macro-with-blocks-called-repeatedly")
+            out.append({"kind": "expand", "items": items})
+            continue
+        if x < 0.13:
+            ctx.count("oracle:alarm-with-blocks-firing-repeatedly")
+            out.append({"kind": "alarm-repeat", "items": gen_alarm_repeat(rng), "ticks": 220})
+            continue
+        if x < 0.25:
+            pcode = pcode_of(gen_empty_openers(rng))
+            ctx.count("oracle:empty-openers-at-end-of-nested-scopes")
+        elif x < 0.33:
             pcode = pcode_of(gen_acyclic(rng))
             ctx.count("oracle:macro-method")
-        elif x < 0.55:
+        elif x < 0.6:
             pcode, _ = gen_program(rng, features=FEATURES - {"alarm"}, max_lines=14)
             ctx.count("oracle:no-alarm")
         else:
@@ -254,8 +425,12 @@ def run(ctx: Check) -> int:
                 "Mark, Base, UOD/engine commands, blank and comment lines (depth<=3, <=14 lines), plus acyclic "
                 "macro-heavy methods, x schedules of 12-45 ticks with random clocks / condition tags and interleaved "
                 "complete / cancel / force requests; a second stream with malformed lines. Non-trivial = an interrupt "
-                "registered, a block entered or a macro called. Oracle stream: the same generators (20% macro methods, "
-                "35% without Alarm, 45% all structures) on the real Engine, 70 ticks, random condition-tag plans.")
+                "registered, a block entered or a macro called. Oracle stream on the real Engine: grammar-generated methods (27% without "
+                "Alarm, 40% all structures), acyclic macro methods (8%), methods whose nested scopes END in an "
+                "empty-bodied opener followed by outdented lines (12%; scope and predecessor of a line are taken from the "
+                "INDENTATION OF THE SOURCE TEXT, not from the parser's tree), 70 ticks, random condition-tag plans; plus "
+                "macros with Blocks called repeatedly (8%, Mark trace = inline expansion) and always-true Alarms with "
+                "Blocks firing repeatedly (5%, every invocation starts the body's lines once in order).")
     rng = ctx.rng
     extra = [{"pcode": pcode_of(gen_acyclic(rng)), "ops": gen_schedule(rng, rng.randrange(15, 45))}
              for _ in range(ctx.n(25, 2000))]
@@ -267,7 +442,7 @@ def run(ctx: Check) -> int:
         ctx.selftest("interp-m3", "Interp", sub, lambda c: _swap_marks(lines_of[id(c)]), model_out[:60])
     m3_stream(ctx, "interp-m3-malformed", ctx.n(25, 2500), features=FEATURES, malformed=True)
     tm["selftest+malformed"] = round(time.time() - t0 - sum(tm.values()), 1)
-    ocases = [c for c in load_corpus("C02") if "ticks" in c] + gen_oracle_cases(ctx, ctx.n(250, 20000))
+    ocases = [c for c in load_corpus("C02") if "ticks" in c or "items" in c] + gen_oracle_cases(ctx, ctx.n(250, 20000))
     ctx.monitor(ocases, oracle_case, impl_timeout=60)
     tm["oracle"] = round(time.time() - t0 - sum(tm.values()), 1)
     ctx.assumptions = ["clock tags, condition tags and command completion are inputs of the model",
@@ -278,8 +453,12 @@ def run(ctx: Check) -> int:
 
 def replay(obj) -> int:
     c = obj.get("case", {})
-    if isinstance(c, dict) and "pcode" in c and "ticks" in c:
-        print(c["pcode"])
+    if isinstance(c, dict) and (c.get("kind") in ("expand", "alarm-repeat") or ("pcode" in c and "ticks" in c)):
+        if "items" in c:
+            from harness.macro_gen import pcode_of
+            print(pcode_of([_tup(x) for x in c["items"]]))
+        else:
+            print(c["pcode"])
         fs = oracle_case(c)
         for f in fs:
             print("oracle:", f.key, "|", f.detail)
